@@ -57,6 +57,10 @@ void vp_witness(const char *id) { load(); fprintf(logf, "VP_WITNESS %s\n", id); 
 void vp_cover(_Bool c, const char *id) { load(); if (c) fprintf(logf, "VP_COVER %s\n", id); }
 void vp_rank_register(const void *p, uint64_t rank) { (void)p; (void)rank; }
 uint64_t vp_native_rank(unsigned i) { return i; }
+/* stream-model helpers of stubs/ostream_fmt.c: natively the real libstdc++ formats */
+void vp_fmt_hint_digits(unsigned k) { (void)k; }
+void vp_fmt_hint_len(unsigned n) { (void)n; }
+unsigned vp_fmt_dec(char *buf, uint64_t v) { return (unsigned)sprintf(buf, "%llu", (unsigned long long)v); }
 uint64_t vp_range_lo(void) { return 0; }
 uint64_t vp_range_hi(void) { return ~0ULL; }
 void vp_observe(uint64_t v) { load(); fprintf(logf, "VP_OBS %llu\n", (unsigned long long)v); }
